@@ -1,6 +1,6 @@
 (* C06 - Offsets-topic decoding never crashes or balloons on any bytes.
    Statements only; proofs are in WireProofs.v and WireRoundtripProofs.v.  Model: Wire.v (process_message = the code in
-   /repo after the repairs eb5a1a8 and 08882db), reference encoders: WireEnc.v.  The model is tied to
+   /repo after the repairs eb5a1a8, 08882db and the second decoder repair), reference encoders: WireEnc.v.  The model is tied to
    core/internal/consumer/kafka_client.go by the probe of checks/c06.py on every run (hostile byte strings through the
    real processConsumerOffsetsMessage in a child process, and through the extracted model). *)
 From Coq Require Import ZArith List Bool.
@@ -17,17 +17,40 @@ Theorem C06_process_never_crashes :
 Proof. exact process_never_crashes. Qed.
 Print Assumptions C06_process_never_crashes.
 
-(* The sizes handed to make on the way (string of n bytes: n; slice of n partition ids: 4n; map size hint n: 48n) add up
-   to at most the key length plus nine times the value length: every allocation is paid for by bytes that are present.
-   No number in the message alone decides an allocation. *)
+(* MEMORY.  What is PROVED is about the sizes the decoder itself asks for: the model records, in bytes, every allocation
+   whose size depends on the message (a string of n bytes: n; a slice of n partition ids: 4n; the assignment map is not
+   pre-sized from the message at all since the second repair).  These add up to at most the message size - an addend,
+   not a factor - because each of them is paid for by bytes that are present and consumed; no number in the message
+   alone decides an allocation.
+   What is MEASURED, not proved (checks/c06.py, on the real decoder, runtime.MemStats.TotalAlloc): the footprint of the Go
+   runtime - map growth as topics are actually decoded, the few bytes encoding/binary allocates per integer read, one
+   StorageRequest and one timer per request emitted, logger fields (nop logger and a real zap core) - against
+   size + 64 KiB for messages up to 4 KiB and, for every size up to 1 MiB, against
+   64 KiB + 32 x (bytes the decoder actually consumed) + 1 KiB x (requests emitted).
+   NEITHER proved nor demanded: a bound independent of the content actually decoded.  A genuine large group-metadata
+   message yields one request (and timer) per partition it names and one map entry per topic: cumulative allocation is
+   proportional to what it contains.  The property's "within tens of kilobytes, never megabytes" is read as: beyond
+   the message size, tens of kilobytes plus a constant per item actually decoded / request actually emitted - never
+   anything for content that is merely announced (see design_notes/C06.md). *)
 Theorem C06_process_alloc_bounded :
   forall (accept : list Z -> bool) (key value : list Z) (o : Z) rs al,
     process_message accept key value o = Done rs al ->
-    0 <= sumz al <= blen key + 9 * blen value.
+    0 <= sumz al <= blen key + blen value.
 Proof. exact process_alloc_bounded. Qed.
 Print Assumptions C06_process_alloc_bounded.
 
-(* ... and for an offset commit (key version 0 or 1) to at most the message size. *)
+(* Locally: what decoding one group member asks for is at most the number of bytes it consumed. *)
+Theorem C06_member_alloc_le_consumed :
+  forall vv b,
+    match decode_member true vv b with
+    | DOk _ r al => 0 <= sumz al <= blen b - blen r
+    | DErr al => 0 <= sumz al <= blen b
+    | DCrash _ => False
+    end.
+Proof. exact member_alloc_le_consumed. Qed.
+Print Assumptions C06_member_alloc_le_consumed.
+
+(* (the special case for an offset commit, key version 0 or 1) *)
 Theorem C06_commit_alloc_bounded :
   forall (accept : list Z -> bool) (key value : list Z) (o : Z) rs al,
     is_commit_key key ->
@@ -95,6 +118,15 @@ Theorem C06_process_alloc_unrepaired_refuted :
 Proof. exact process_alloc_unrepaired_refuted. Qed.
 Print Assumptions C06_process_alloc_unrepaired_refuted.
 
+(* The first repair clamped the map size hint to min(numTopics, bytes left / 6): still 48 nominal (76 measured) bytes of
+   map per 6 bytes of message for topics that are only announced.  Witness: 2^31-1 topics announced, first name of
+   length -2, 600 zero bytes: nothing decoded, 4800 bytes asked for 606 bytes of input.  On the real code before the
+   second repair a 128 KiB value of this shape allocated 1.58 MB and a 1 MB value 12.6 MB, with no request produced. *)
+Theorem C06_assignment_hint_clamped_refuted :
+  exists b al, decode_assignment_clamped b = DErr al /\ blen b = 606 /\ sumz al = 4800.
+Proof. exact assignment_hint_clamped_refuted. Qed.
+Print Assumptions C06_assignment_hint_clamped_refuted.
+
 (* ---- non-vacuity ---- *)
 
 (* the witnesses of F1 on the repaired model: skipped, nothing allocated beyond the message *)
@@ -106,7 +138,7 @@ Example C06_ex_huge_topic_count_bounded :
   process_message (fun _ => true) [0; 2; 0; 1; 103]
     ([0; 0; 0; 8; 99; 111; 110; 115; 117; 109; 101; 114; 0; 0; 0; 0; 255; 255; 255; 255; 0; 0; 0; 1]
      ++ [255; 255; 255; 255; 255; 255; 0; 0; 0; 0; 0; 0; 0; 0; 0; 0; 0; 6; 0; 0; 127; 255; 255; 255]) 0
-  = Done [] [1; 8; 0].
+  = Done [] [1; 8].
 Proof. vm_compute. reflexivity. Qed.
 
 (* the unit test's commit is a commit key, consists of bytes, is well-formed and yields its update ... *)
